@@ -505,7 +505,8 @@ def run(ctx: Ctx, repo: Repo, tier: str) -> None:
               "getattr(obj, name) raises AttributeError for a missing attribute, also for '<locals>'",
               "exception matching follows the class hierarchy (read from monkeytype/exceptions.py for the package's own classes)",
               "inspect.unwrap follows __wrapped__ and otherwise returns its argument")
-    rule_conversion(ctx, repo)
-    rule_get_stub(ctx, repo)
-    rule_status(ctx, repo)
-    rule_params_ignored(ctx, repo)
+    ctx.attempt(rule_conversion, ctx, repo)
+    ctx.attempt(rule_get_stub, ctx, repo)
+    ctx.attempt(rule_status, ctx, repo)
+    ctx.attempt(rule_params_ignored, ctx, repo)
+    ctx.settle()
